@@ -147,7 +147,12 @@ def run(repo, rep, tier):
                         is_mod = True
             if is_mod:
                 seq.append(("mod", s.lineno))
-            elif "unique_indices" in t:
+            elif "unique_indices" in t or (isinstance(v, ast.Call) and isinstance(v.func, ast.Attribute) and v.func.attr == "isel" and any(
+                    isinstance(a_, ast.Assign) and isinstance(a_.value, ast.Call) and call_name(a_.value).split(".")[-1] == "unique" and
+                    isinstance(a_.targets[0], (ast.Tuple, ast.List)) and any(isinstance(e_, ast.Name) and any(
+                        isinstance(k_.value, ast.Name) and k_.value.id == e_.id for k_ in v.keywords) for e_ in a_.targets[0].elts)
+                    for a_ in ast.walk(fi.node))):
+                # de-duplication: the helper, or its body  `_, index = np.unique(x[dir], return_index=True); x.isel(dir=index)`
                 seq.append(("unique", s.lineno))
             elif ".sortby(" in t:
                 seq.append(("sort", s.lineno))
